@@ -34,6 +34,9 @@ def check(ctx):
         if ctx.quick and (t not in ("Images", "DiffractionPatterns") and (seed != 1 or samples == 3)):
             continue
         cases.append({"type": t, "shape": sh, "dose": dose, "samples": samples, "seed": seed})
+    # dose given per AREA: the dose per measurement is dose_per_area x the area of one scan (or image) pixel, for isotropic and anisotropic steps
+    for t, steps, lazy in itertools.product(("Images", "DiffractionPatterns", "PolarMeasurements"), ([0.3, 0.3], [0.2, 0.5], [0.31, 0.30]), (False, True)):
+        cases.append({"kind": "per-area", "type": t, "steps": steps, "lazy": lazy, "dose": 4e5, "seed": 3})
     ctx.run(cases, "run_case", rule="one case per (type, ensemble shape, dose, samples, seed); inside eager x2 and every chunking lazily x2; "
             "non-trivial = more than one member or sample")
 
@@ -76,7 +79,45 @@ def noisy(c, chunks=None, chunk_size=None, info=None):
     return np.asarray(out.array), member
 
 
+def run_per_area(c):
+    import abtem
+    from abtem import measurements as M
+    from abtem.core.axes import ScanAxis
+
+    viol = []
+    sx, sy = c["steps"]
+    if c["type"] == "Images":
+        member = (0.01 + 0.04 * np.arange(48).reshape(8, 6) / 48).astype(np.float32)
+        o = abtem.Images(member.copy(), sampling=(sx, sy))
+        sig_sum, n_meas, area = float(member.sum()), member.size, sx * sy
+    else:
+        base = (6, 5) if c["type"] == "DiffractionPatterns" else (4, 3)
+        member = (0.01 + 0.04 * np.arange(int(np.prod(base))).reshape(base) / np.prod(base)).astype(np.float32)
+        arr = np.broadcast_to(member, (8, 6) + base).copy()
+        axes = [ScanAxis(label="x", sampling=sx, units="Å"), ScanAxis(label="y", sampling=sy, units="Å")]
+        if c["type"] == "DiffractionPatterns":
+            o = M.DiffractionPatterns(arr, sampling=0.1, ensemble_axes_metadata=axes, metadata={"energy": 1e5})
+        else:
+            o = M.PolarMeasurements(arr, radial_sampling=1.0, azimuthal_sampling=2 * np.pi / 3, ensemble_axes_metadata=axes)
+        sig_sum, n_meas, area = float(arr.sum()), arr.size, sx * sy
+    if c["lazy"]:
+        o = o.ensure_lazy()
+    out = o.poisson_noise(dose_per_area=c["dose"], seed=c["seed"])
+    out = out.compute() if getattr(out, "is_lazy", False) else out
+    counts = np.asarray(out.array, dtype=np.float64)
+    if (counts < 0).any() or not np.array_equal(counts, np.round(counts)):
+        viol.append({"key": "counts/not-nonnegative-integers", "msg": "noisy counts are not non-negative whole numbers (%s)" % (c,)})
+    lam = c["dose"] * area * sig_sum  # expected total number of counts
+    z = (counts.sum() - lam) / np.sqrt(lam)
+    if abs(z) > 6.0:
+        viol.append({"key": "expectation/dose-per-area", "msg": "dose_per_area=%g with pixel area %g x %g: total counts %.6g, expected dose x area x signal = %.6g (%.1f sigma, ratio %.4f) (%s)" % (
+            c["dose"], sx, sy, counts.sum(), lam, z, counts.sum() / lam, c)})
+    return {"viol": viol, "obs": "z=%.1f" % z, "nt": True, "tr": 1, "ref": 1, "err": abs(z) / 6.0}
+
+
 def run_case(c):
+    if c.get("kind") == "per-area":
+        return run_per_area(c)
     viol, tr = [], 0
     sh = tuple(c["shape"])
 
